@@ -1320,7 +1320,7 @@ def gen_unmodelled(r, n):
                   "center1_distanceVec", "center1_fit_distanceDir", "center1_distancePairs",
                   "rmsd_perm", "lincomb_coordNum", "lincomb_selfCoordNum", "distanceZ2_period",
                   "ev_forceNoPBC", "ev_period", "ev_distanceVec_coeff", "ev_rmsd_exp", "ev_dihedral_coeff", "ev_distancePairs_coeff",
-                  "gspathCV", "gzpathCV", "aspathCV", "azpathCV", "gspath", "gzpath", "aspath", "azpath", "scripted_vsum"]
+                  "gspathCV", "gzpathCV", "aspathCV", "azpathCV", "gspath", "gzpath", "aspath", "azpath", "scripted_vsum", "lincomb_distanceVec"]
     names = names + cell_names
     only = os.environ.get("C01_ONLY")          # debugging aid: restrict the sweep to kinds containing this text
     if only:
@@ -1514,10 +1514,22 @@ def gen_unmodelled(r, n):
             if third:
                 subs += ("    coordNum {\n      name d3\n      group1 {\n        atomNumbers %s\n      }\n      group2 {\n        atomNumbers %s\n      }\n      cutoff 4.0\n    }\n"
                          % (ids_str(ids[:2]), ids_str(oth2)))
+            vecsub = r.random() < 0.35
+            if vecsub:
+                # a vector-valued sub-component has no explicit atomic gradients: the path variable then hands each
+                # sub-component its share of the force through apply_force() instead of scaling stored gradients
+                third = False
+                subs = ("    distanceVec {\n      name d1\n      group1 {\n        atomNumbers %s\n      }\n      group2 {\n        atomNumbers %s\n      }\n    }\n"
+                        "    distance {\n      name d2\n      group1 {\n        atomNumbers %d\n      }\n      group2 {\n        atomNumbers %s\n      }\n    }\n"
+                        % (ids_str(ids[:2]), ids_str(oth2), ids[2] + 1, ids_str(oth2)))
             nfr = r.choice([3, 4, 5])
             rows = []
             for fr in range(nfr):
-                row = [1.0 + 1.75 * fr + V.dyadic(r, -0.5, 0.5, bits=3), -3.0 + 1.5 * fr + V.dyadic(r, -0.5, 0.5, bits=3)]
+                if vecsub:
+                    row = [-3.0 + 1.5 * fr + V.dyadic(r, -0.5, 0.5, bits=3), -2.0 + 1.25 * fr + V.dyadic(r, -0.5, 0.5, bits=3),
+                           3.0 - 1.5 * fr + V.dyadic(r, -0.5, 0.5, bits=3), 1.0 + 1.75 * fr + V.dyadic(r, -0.5, 0.5, bits=3)]
+                else:
+                    row = [1.0 + 1.75 * fr + V.dyadic(r, -0.5, 0.5, bits=3), -3.0 + 1.5 * fr + V.dyadic(r, -0.5, 0.5, bits=3)]
                 if third:
                     row.append(0.25 + 0.5 * fr)
                 rows.append(" ".join("%r" % x for x in row))
@@ -1561,6 +1573,12 @@ def gen_unmodelled(r, n):
             cen = {"gspath": 0.4, "gzpath": 1.0, "aspath": 0.5, "azpath": 2.0}[name]
             conf = ("colvar {\n  name v0\n  %s {\n    atoms {\n      atomNumbers %s\n    }\n%s%s  }\n}\nharmonic {\n  colvars v0\n  centers %r\n  forceConstant %r\n}"
                     % (name, ids_str(ids), reflines, extra, cen, r.choice([2.0, 10.0, 1.0])))
+        elif name == "lincomb_distanceVec":
+            # vector-valued linear combination: the sub-components get their forces through apply_force()
+            touched = sorted(set(ids + oth2))
+            conf = ("colvar {\n  name v0\n  linearCombination {\n    distanceVec {\n      name a\n      componentCoeff 2.0\n      group1 {\n        atomNumbers %s\n      }\n      group2 {\n        atomNumbers %s\n      }\n    }\n"
+                    "    distanceVec {\n      name b\n      componentCoeff -0.5\n      group1 {\n        atomNumbers %s\n      }\n      group2 {\n        atomNumbers %s\n      }\n    }\n  }\n}\n"
+                    "harmonic {\n  colvars v0\n  centers (1.0, 0.5, -0.5)\n  forceConstant 2.0\n}" % (ids_str(ids[:2]), ids_str(oth2), ids_str(ids[2:]), ids_str(oth2[:1])))
         elif name == "scripted_vsum":
             # scriptedFunction through the engine's callback (vsim: vsum = sum of the component values, gradient 1)
             touched = sorted(set(ids[:3] + oth2))
@@ -1860,7 +1878,7 @@ def check(run):
     # ---- finite-difference sweep over configurations the model does not cover (a few per kind in the quick tier)
     if True:
         ur = V.rng("C01-unmodelled")
-        ucases = gen_unmodelled(ur, 192 if quick else 6000)
+        ucases = gen_unmodelled(ur, 195 if quick else 6000)
         ures = run_vsim(vsim, ucases)
         for case, res in zip(ucases, ures):
             name = case["name"]
